@@ -496,6 +496,7 @@ PROPS["C04"] = {
         leg("two_cancel", "c04_ctx", (3, 4), {"kind": "two_cancel"}, what="two cancellers of R || bind C beneath P"),
         leg("leaf_cancel", "c04_ctx", (3, 4), {"kind": "leaf_cancel"}, what="two cancellers of a leaf context (no children yet) || bind a first child beneath it: exactly one winner, the child ends up cancelled"),
         leg("fresh_cancel", "c04_ctx", (3, 4), {"kind": "fresh_cancel"}, what="two cancellers of a context that was never bound: exactly one winner"),
+        leg("reset_below", "c04_ctx", (2, 3), {"kind": "reset_below"}, what="a descendant is reset while its ancestors stay cancelled; then an unrelated tree is cancelled || a new context is bound beneath the cancelled parent: the reset context must not be marked again"),
         leg("mid", "c04_ctx", (3, 4), {"kind": "mid"}, what="cancel(P) || bind C beneath P || bind D beneath R (D, R stay clean)"),
         leg("destroy", "c04_ctx", (3, 4), {"kind": "destroy"}, what="cancel(R) || bind C beneath P || destroy sibling X"),
         leg("deep", "c04_ctx", (3, 4), {"kind": "deep"}, what="cancel(R) || bind C beneath P || bind E beneath C"),
